@@ -286,10 +286,43 @@ def for_uvloop(program: dict) -> dict:
     return dict(program, cfg="uvloop", root=timer_free(program["root"]), agents=agents)
 
 
+def _add_holds(rng: random.Random, ops: list, top: bool = False) -> None:
+    if top or rng.random() < 0.3:
+        ops.insert(0, ["hold", rng.choice([1, 1, 2])])
+
+    for op in ops:
+        if op[0] == "group":
+            for ch in op[2]:
+                _add_holds(rng, ch["body"])
+
+            _walk_bodies(rng, op[3])
+        else:
+            _walk_bodies(rng, [op])
+
+
+def _walk_bodies(rng: random.Random, ops: list) -> None:
+    """descend into nested op lists looking for groups (children get their own holds)"""
+    for op in ops:
+        if op[0] == "group":
+            for ch in op[2]:
+                _add_holds(rng, ch["body"])
+
+            _walk_bodies(rng, op[3])
+        else:
+            for x in op[1:]:
+                if isinstance(x, list) and x and isinstance(x[0], list):
+                    _walk_bodies(rng, x)
+
+
 def gen(rng: random.Random, profile: str, cfgs: list[str]) -> dict:
     g = Gen(rng, profile)
     root = g.body(0, [], top=True)
     p = {"cfg": rng.choice(cfgs), "root": root, "agents": g.agents(), "profile": profile}
+    if profile == "c05" and rng.random() < 0.3:
+        # a share of the tasks keep 1-2 native cancellation requests (non-zero
+        # Task.cancelling() baseline): surplus uncancel() calls become visible
+        _add_holds(rng, root, top=True)
+
     if p["cfg"] == "uvloop":
         p = for_uvloop(p)
 
